@@ -95,12 +95,11 @@ Definition check_case (c : case) : verdict :=
     spec (forallb (fun t => N.eqb t (N.of_nat (k_per_writer c))) (k_own_totals c))
          "after all ingests returned, a writer's own series is not the sum of its ingests";
     (* timeline and tree of one render come from the same whole number of ingests *)
-    (if forallb (fun r => rd_nil r || (timeline_well_formed (rd_timeline r) &&
+    (* repaired by /repo fba57a2 (Segment.GetWithTimeline): timeline and tree used to be read in two lock sections *)
+    spec (forallb (fun r => rd_nil r || (timeline_well_formed (rd_timeline r) &&
                     N.eqb (timeline_ingests (rd_timeline r)) (N.of_nat (length (rd_uniq r)) + (if k_cold c then 0 else 1))))
-                  (k_final c :: k_reads c) || String.eqb (k_stream c) "delete"
-     then Ok
-     else (* torn mixture: the timeline of a render shows a different number of ingests than its tree *)
-          Known "timeline-tree-two-lock-sections")
+                  (k_final c :: k_reads c) || String.eqb (k_stream c) "delete")
+         "torn mixture: the timeline of a render shows a different number of ingests than its tree"
   ]).
 
 Open Scope N_scope.
